@@ -134,10 +134,76 @@ def random_ops(rng, n_ops, mtu=None):
     return ops
 
 
+# every ordered pair / triple of procedures on ONE characteristic, each preceded by a long write
+# of a fresh value of at least MTU-1 bytes (so that state left behind by one procedure -- on the
+# client or on the server -- is seen by the following ones)
+PROCS = ["read", "read_blob", "read_long", "write_short", "write_big", "write_long", "write_command"]
+_fresh = [0]
+
+def fresh_value(n):
+    """n bytes, different from every value generated before in this run"""
+    _fresh[0] += 1
+    k = _fresh[0]
+    return bytes(((i * 13 + k * 31 + (k >> 3)) ^ (k & 0xFF)) & 0xFF for i in range(n))
+
+
+def big_len(rng, mtu):
+    return min(512, rng.choice([mtu - 1, mtu, mtu + 5, 2 * (mtu - 1), 2 * (mtu - 1) + 3]))
+
+
+def proc_op(rng, name, h, mtu):
+    if name == "read":
+        return ["read", h]
+    if name == "read_long":
+        return ["read_long", h]
+    if name == "read_blob":
+        return ["read_blob", h, rng.choice([0, 0, 1, 5, mtu - 2, mtu - 1])]
+    if name == "write_short":
+        return ["write", h, fresh_value(rng.randrange(1, mtu - 2)).hex()]               # plain Write Request
+    if name == "write_big":
+        return ["write", h, fresh_value(big_len(rng, mtu)).hex()]                       # write() taking the long path
+    if name == "write_long":
+        return ["write_long", h, fresh_value(rng.choice([rng.randrange(1, mtu - 2), big_len(rng, mtu)])).hex()]
+    return ["write_command", h, fresh_value(rng.choice([rng.randrange(1, mtu - 2), big_len(rng, mtu)])).hex()]
+
+
+def tuple_sequences(rng, mtu, k, split=True, sample=False):
+    """all ordered k-tuples of PROCS (k = 2 or 3); one connection per first procedure when split.
+    sample (k = 3): every read/write/read and write/read/write triple, plus 40 random others"""
+    import itertools
+    seqs = {}
+    tuples = list(itertools.product(PROCS, repeat=k))
+    if sample:
+        isr = lambda x: x.startswith("read")
+        alt = [t for t in tuples if isr(t[0]) != isr(t[1]) and isr(t[1]) != isr(t[2])]
+        rest = [t for t in tuples if t not in alt]
+        tuples = alt + rng.sample(rest, 40)
+    for t in tuples:
+        h = H_RW if (PROCS.index(t[0]) + PROCS.index(t[-1])) % 2 == 0 else H_RW2
+        ops = seqs.setdefault(t[0] if split else "", [["set_mtu", mtu]] if mtu != 23 else [])
+        ops.append(["write", h, fresh_value(big_len(rng, mtu)).hex()])                   # setup: stored value >= MTU-1 bytes
+        for name in t:
+            ops.append(proc_op(rng, name, h, mtu))
+    return list(seqs.values())
+
+
 def gen_cases(ctx):
     rng, prof, cases = ctx.rng, base_profile(), []
     def add(ops, tag):
         cases.append({"profile": prof, "ops": ops, "tag": tag})
+    if ctx.thorough:
+        for mtu in [23, 24, 27, 28, 64, 185, 247]:
+            for ops in tuple_sequences(rng, mtu, 3):
+                add(ops, "triples")
+        for mtu in [100, 300, 512, 517]:
+            for ops in tuple_sequences(rng, mtu, 2, split=False):
+                add(ops, "pairs")
+    else:
+        for ops in tuple_sequences(rng, 23, 3, sample=True):
+            add(ops, "triples")
+        for mtu in [24, 185, rng.choice([27, 28, 64, 247])]:
+            for ops in tuple_sequences(rng, mtu, 2, split=False):
+                add(ops, "pairs")
     if ctx.thorough:
         for mtu in MTUS:
             for lo in range(0, 513, 19):
@@ -155,7 +221,7 @@ def gen_cases(ctx):
         for _ in range(3):
             mtu = rng.randrange(23, 518)
             add(sweep_ops(rng, mtu, boundary_lengths(mtu)[::2]), "boundary")
-        n_rand, n_ops = 50, 24
+        n_rand, n_ops = 36, 20
     for _ in range(n_rand):
         add(random_ops(rng, n_ops), "random")
     # malformed stream: write commands the server refuses (answered with an Error Response the client must drop),
